@@ -134,33 +134,41 @@ structure Cfg where
   label : String
 deriving DecidableEq, Repr, Inhabited
 
-def need (key : String) : Option String → Except Err String
-  | some v => .ok v
-  | none => .error (.missingKey key)
-
 /-- the score description handed to `ProteinScoringStrategy` -/
 def scoreDescription (scoreType sharedPeptides : String) : String :=
   if sharedPeptides == "razor" then scoreType ++ " razor" else scoreType
 
-/-- `methods.parse_method_toml` on the content of a TOML file (`useGenes` = `use_pseudo_genes`) -/
-def parseMethod (useGenes : Bool) (t : MethodToml) : Except Err Cfg := do
-  let pickedName ← need "pickedStrategy" t.pickedStrategy
-  let pk ← match parsePicked pickedName with
-    | some p => pure p
-    | none => throw .unknownPicked
-  let scoreType ← need "scoreType" t.scoreType
-  let shared ← need "sharedPeptides" t.sharedPeptides
-  let d := scoreDescription scoreType shared
-  let score ← match parseScore d with
-    | some s => pure s
-    | none => throw .unknownScore
-  let groupingName ← if useGenes then pure "pseudo_gene" else need "grouping" t.grouping
-  let grouping ← match parseGrouping groupingName with
-    | some g => pure g
-    | none => throw .unknownGrouping
-  let label ← need "label" t.label
-  pure { score, origin := parseOrigin d, razor := has d "razor", withShared := has d "with_shared",
-         grouping, picked := pk, label }
+/-- `methods.parse_method_toml` on the content of a TOML file (`useGenes` = `use_pseudo_genes`);
+    the keys are read, and the factories called, in the code's order -/
+def parseMethod (useGenes : Bool) (t : MethodToml) : Except Err Cfg :=
+  match t.pickedStrategy with
+  | none => .error (.missingKey "pickedStrategy")
+  | some pkName =>
+  match parsePicked pkName with
+  | none => .error .unknownPicked
+  | some pk =>
+  match t.scoreType with
+  | none => .error (.missingKey "scoreType")
+  | some st =>
+  match t.sharedPeptides with
+  | none => .error (.missingKey "sharedPeptides")
+  | some sh =>
+  match parseScore (scoreDescription st sh) with
+  | none => .error .unknownScore
+  | some sc =>
+  match (if useGenes then some "pseudo_gene" else t.grouping) with
+  | none => .error (.missingKey "grouping")
+  | some gName =>
+  match parseGrouping gName with
+  | none => .error .unknownGrouping
+  | some g =>
+  match t.label with
+  | none => .error (.missingKey "label")
+  | some lb =>
+    .ok { score := sc, origin := parseOrigin (scoreDescription st sh),
+          razor := has (scoreDescription st sh) "razor",
+          withShared := has (scoreDescription st sh) "with_shared",
+          grouping := g, picked := pk, label := lb }
 
 /-- `ProteinScore.can_do_protein_group_rescue` -/
 def Score.canRescue : Score → Bool
@@ -284,19 +292,26 @@ def resolve (table : List MethodToml) : MethodRef → Except Err MethodToml
     failure ends the run before anything is read -/
 def parseAll (table : List MethodToml) (useGenes : Bool) : List MethodRef → Except Err (List Cfg)
   | [] => .ok []
-  | m :: r => do
-    let t ← resolve table m
-    let c ← parseMethod useGenes t
-    let cs ← parseAll table useGenes r
-    pure (c :: cs)
+  | m :: r =>
+    match resolve table m with
+    | .error e => .error e
+    | .ok t =>
+      match parseMethod useGenes t with
+      | .error e => .error e
+      | .ok c =>
+        match parseAll table useGenes r with
+        | .error e => .error e
+        | .ok cs => .ok (c :: cs)
 
 /-- `run_picked_group_fdr`: parse every method, demand the peptide→protein map if some method
     needs it, run the loop -/
 def runCli (table : List MethodToml) (useGenes : Bool) (s : Supplied) (ms : List MethodRef) :
-    Except Err (List Cfg × List Outcome) := do
-  let cfgs ← parseAll table useGenes ms
-  if cfgs.any Cfg.needsMap && !s.map then throw .missingFasta
-  pure (cfgs, runLoop s cfgs)
+    Except Err (List Cfg × List Outcome) :=
+  match parseAll table useGenes ms with
+  | .error e => .error e
+  | .ok cfgs =>
+    if cfgs.any Cfg.needsMap && !s.map then .error .missingFasta
+    else .ok (cfgs, runLoop s cfgs)
 
 /-- ASCII `str.lower` (labels of the shipped files are ASCII; checked by the correspondence) -/
 def lowerAscii (s : String) : String := String.ofList (s.toList.map Char.toLower)
